@@ -7,6 +7,8 @@ package c15
 import (
 	"fmt"
 	"os"
+
+	"github.com/canopy-network/canopy/lib"
 	"sort"
 	"testing"
 
@@ -27,7 +29,7 @@ func TestCheck(t *testing.T) {
 	run.Assume("unbounded 'eventually' restated as a bound of 4 honest-led rounds; rounds led by Byzantine/silent proposers or with split selection are not counted (reported); virtual time only")
 	coms := bftsim.Committees()
 	tos := bftsim.TimeoutConfigs()
-	prefixes := []string{"split", "hidden-lock", "commit-withheld", "lock-replay-reset", "replay", "random", "crash"}
+	prefixes := []string{"split", "hidden-lock", "commit-withheld", "lock-replay-reset", "lock-replay-reset", "replay", "random", "crash"}
 	n := core.Pick(70, 8000)
 	hist := map[int]int{}
 	var histMu = make(chan struct{}, 1)
@@ -52,6 +54,14 @@ func TestCheck(t *testing.T) {
 		c.Cfg.MaxEvents = 40000
 		healAt := int64(600 + rng.Intn(12000))
 		byzQuiet := rng.Intn(2) == 0
+		stateTriggered := false
+		if sc == "lock-replay-reset" {
+			// GST is triggered by the state this prefix aims at: somebody holds a lock from the old root height, others lock a
+			// different value at (new root height, round 0), nobody has committed; afterwards every honest vote is needed
+			stateTriggered, byzQuiet = true, true
+			c.Adv.K.DropPrecommitVotesP = 1
+			healAt = 60000
+		}
 		s := bftsim.New(c.Cfg, c.Adv)
 		if os.Getenv("VERIF_CASE") != "" {
 			s.EnableLog()
@@ -60,7 +70,27 @@ func TestCheck(t *testing.T) {
 			c.Script(s, c.Adv)
 		}
 		divergent := false
-		s.At(healAt, func() {
+		doHeal := func() {}
+		if stateTriggered {
+			prev := c.Adv.OnLock
+			armed := false
+			c.Adv.OnLock = func(i int, qc *lib.QuorumCertificate) {
+				if prev != nil {
+					prev(i, qc)
+				}
+				if !armed && qc.Header.RootHeight > s.Cfg.RootStart {
+					armed = true
+					s.At(150+s.Rng.Int63n(400), func() { doHeal() })
+				}
+			}
+		}
+		healed := false
+		s.At(healAt, func() { doHeal() })
+		doHeal = func() {
+			if healed {
+				return
+			}
+			healed = true
 			// measure the configuration at GST
 			views := map[string]bool{}
 			locked := 0
@@ -73,14 +103,23 @@ func TestCheck(t *testing.T) {
 			}
 			divergent = len(views) > 1 || locked > 0
 			c.Heal(s, byzQuiet)
-		})
+		}
+		tt := c.Cfg.Timeouts
+		minWait := int64(tt.Election)
+		for _, x := range []int{tt.ElectionVote, tt.Propose, tt.ProposeVote, tt.Precommit, tt.PrecommitVote, tt.Commit} {
+			if int64(x) < minWait {
+				minWait = int64(x)
+			}
+		}
 		// run until every honest replica committed height 1, or H+1 honest-led rounds started after GST, or the watchdog fires
 		honestLedAfter := func() (led, faulty int) {
 			for _, ri := range s.RoundOrder {
 				if s.HealedAt == 0 || ri.FirstSeen < s.HealedAt+20 {
 					continue
 				}
-				if s.HonestLed(ri) {
+				// a round counts when it is honest-led AND in phase: all honest replicas cast their election vote within the
+				// shortest phase wait of that round (messages between them then arrive inside each other's phase windows)
+				if s.HonestLed(ri) && len(ri.At) == len(s.Honest()) && ri.Spread()+10 < minWait*int64(2*ri.Round+1) {
 					led++
 				} else {
 					faulty++
